@@ -37,6 +37,10 @@ def jobs(tier, seed):
         ("compose", (("i", "i"), ("o", "-"), ("-", "o"))),
         ("compose", (("i", "o"), ("o", "i"), ("i", "-"))),
         ("compose", (("o", "i"), ("o", "i"), ("-", "o"))),
+        # the second operand drives the first (other_helps_self): v1 is produced by c2 and consumed by c1
+        ("compose", (("i", "-"), ("i", "o"), ("o", "-"))),
+        ("compose", (("i", "i"), ("i", "o"), ("o", "-"))),
+        ("compose", (("-", "i"), ("i", "o"), ("o", "-"))),
         ("quotient", (("i", "i"), ("o", "-"), ("-", "o"))),
         ("quotient", (("i", "-"), ("o", "o"), ("-", "i"))),
         ("quotient", (("i", "i"), ("o", "o"), ("o", "-"))),
